@@ -12,13 +12,20 @@ import (
 	"fmt"
 	"io"
 	"math/rand/v2"
+	"os"
+	"path/filepath"
 	"strings"
 	"time"
 
+	"context"
+
 	"github.com/fido-device-onboard/go-fdo/cbor"
+	"github.com/fido-device-onboard/go-fdo/protocol"
 	"github.com/fido-device-onboard/go-fdo/serviceinfo"
+	"github.com/fido-device-onboard/go-fdo/sqlite"
 
 	"verif/harness/internal/gen"
+	"verif/harness/internal/lab"
 	"verif/harness/internal/rep"
 )
 
@@ -184,4 +191,121 @@ func c19PipeModel(x *runCtx, r *rand.Rand) {
 			}})
 	}
 	x.c.flush()
+}
+
+// c19FreshStore: the very first requests a newly created SQLite store ever sees arrive together (a server that has just
+// been deployed behind a load balancer): every one of the devices must get through DI exactly as it would alone.
+func c19FreshStore(x *runCtx, r *rand.Rand) {
+	rounds, m := 4, 8
+	if x.thorough() {
+		rounds, m = 60, 12
+	}
+	for round := 0; round < rounds; round++ {
+		cw := newC19World("sqlite")
+		input := fmt.Sprintf("fresh sqlite store, %d devices send their first DI message at the same instant (round %d)", m, round)
+		x.r.Case(input, true, "fresh-store")
+		start := make(chan struct{})
+		errs := make([]string, m)
+		done := make(chan int, m)
+		for i := 0; i < m; i++ {
+			go func(i int) {
+				defer func() {
+					if p := recover(); p != nil {
+						errs[i] = fmt.Sprintf("panic: %v", p)
+					}
+					done <- i
+				}()
+				k := lab.Kinds[i%2] // the two EC kinds: no RSA key generation in the way of the stampede
+				<-start
+				ctx, cancel := context.WithTimeout(context.Background(), 60*time.Second)
+				defer cancel()
+				if _, err := cw.w.NewDevice(ctx, k, protocol.X509KeyEnc, fmt.Sprintf("dev%d", 1+i%2), nil); err != nil {
+					errs[i] = err.Error()
+				}
+			}(i)
+		}
+		close(start)
+		for i := 0; i < m; i++ {
+			<-done
+		}
+		var failed []string
+		for i, e := range errs {
+			if e != "" {
+				failed = append(failed, fmt.Sprintf("device %d: %s", i, e))
+			}
+		}
+		if len(failed) > 0 {
+			x.r.Violate(rep.Violation{Kind: "oracle", Check: "C19.fresh-store", Signature: "C19.outcome-differs-from-solo:DI:fresh-store", Input: input,
+				Impl: strings.Join(failed, "; "), Detail: fmt.Sprintf("%d of %d devices failed DI; each succeeds alone", len(failed), m), PropertyFails: true})
+		}
+		cw.close()
+	}
+}
+
+// c19FreshStoreTokens: the same at the level of the store alone, on many newly created database files (on disk and in
+// memory-backed storage, whichever the sandbox offers): the sessions opened by the first simultaneous NewToken calls a
+// store ever sees are all usable afterwards.
+func c19FreshStoreTokens(x *runCtx) {
+	rounds, m := 30, 16
+	if x.thorough() {
+		rounds = 300
+	}
+	bases := []string{os.TempDir()}
+	if st, err := os.Stat("/dev/shm"); err == nil && st.IsDir() {
+		bases = append(bases, "/dev/shm")
+	}
+	for round := 0; round < rounds; round++ {
+		dir, err := os.MkdirTemp(bases[round%len(bases)], "c19-fresh-")
+		if err != nil {
+			fatal("tempdir: %v", err)
+		}
+		db, err := sqlite.Open(filepath.Join(dir, "server.db"), "")
+		if err != nil {
+			fatal("sqlite: %v", err)
+		}
+		input := fmt.Sprintf("fresh sqlite store in %s, %d simultaneous first NewToken calls, each token then used once (round %d)", bases[round%len(bases)], m, round)
+		x.r.Case(input, true, "fresh-store-tokens")
+		start := make(chan struct{})
+		done := make(chan string, m)
+		for i := 0; i < m; i++ {
+			go func(i int) {
+				res := ""
+				defer func() {
+					if p := recover(); p != nil {
+						res = fmt.Sprintf("panic: %v", p)
+					}
+					done <- res
+				}()
+				<-start
+				ctx := context.Background()
+				tok, err := db.NewToken(ctx, protocol.TO0Protocol)
+				if err != nil {
+					res = "NewToken: " + err.Error()
+					return
+				}
+				tctx := db.TokenContext(ctx, tok)
+				n := protocol.Nonce{byte(i), 1, 2, 3}
+				if err := db.SetTO0SignNonce(tctx, n); err != nil {
+					res = "SetTO0SignNonce with the token just issued: " + err.Error()
+					return
+				}
+				if got, err := db.TO0SignNonce(tctx); err != nil || got != n {
+					res = fmt.Sprintf("TO0SignNonce with the token just issued: %v %x", err, got)
+				}
+			}(i)
+		}
+		close(start)
+		var failed []string
+		for i := 0; i < m; i++ {
+			if s := <-done; s != "" {
+				failed = append(failed, s)
+			}
+		}
+		_ = db.Close()
+		_ = os.RemoveAll(dir)
+		if len(failed) > 0 {
+			x.r.Violate(rep.Violation{Kind: "oracle", Check: "C19.fresh-store", Signature: "C19.outcome-differs-from-solo:first-sessions-of-a-fresh-store", Input: input,
+				Impl: strings.Join(failed, "; "), Detail: fmt.Sprintf("%d of %d sessions unusable; each is fine when opened alone", len(failed), m), PropertyFails: true})
+		}
+	}
 }
